@@ -48,7 +48,8 @@ pub fn t1_aborts() -> T1Profile {
     let mut p = T1Profile::base("t1-aborts");
     p.work.aborts = true;
     p.work.stop_reading = true;
-    p.work.wait_reset = true;
+    // (no poll_reset waits here: waiting for a reset of a stream that then finishes cleanly
+    // is a wait the application itself made unsatisfiable; see the fatal/shutdown profiles)
     p.work.any_code = true;
     p.settings_changes = true;
     p.pings = true;
@@ -74,8 +75,26 @@ pub fn t1_shutdown() -> T1Profile {
     p
 }
 
+pub fn t1_push() -> T1Profile {
+    let mut p = T1Profile::base("t1-push");
+    p.work.pushes = true;
+    p.push_adopt_all = true;
+    p
+}
+
+pub fn t1_push_unadopted() -> T1Profile {
+    let mut p = T1Profile::base("t1-push-unadopted");
+    p.work.pushes = true;
+    // an application that leaves push enabled but never takes the promises holds their
+    // data (and connection window) itself: progress is not owed
+    p.progress_oracle = false;
+    p
+}
+
 pub fn all_scenarios() -> Vec<Scenario> {
     vec![
+        Scenario::T1(t1_push()),
+        Scenario::T1(t1_push_unadopted()),
         Scenario::T1(t1_coop()),
         Scenario::T1(t1_coop_settings()),
         Scenario::T1(t1_aborts()),
